@@ -12,6 +12,7 @@ import (
 	"encoding/json"
 	"fmt"
 	"net"
+	"strconv"
 	"strings"
 
 	"github.com/glowlabs-org/gca-backend/glow"
@@ -67,7 +68,7 @@ func c08Run(j c08Job) *jobReport {
 	if len(j.Slots) > 0 {
 		histOrigin = 100
 	}
-	p, err := newPairWorld("c08", 100000, []string{fmt.Sprintf("now:%d", startNow)}, &header, histOrigin)
+	p, err := newPairWorld("c08", 3000000000, []string{fmt.Sprintf("now:%d", startNow)}, &header, histOrigin)
 	if err != nil {
 		rep.fail("harness/setup", err.Error())
 		return rep
@@ -265,6 +266,10 @@ func c08Value(r string) uint64 {
 	case "70000":
 		return 70000
 	}
+	// boundary readings of the 32-bit signed range (multiplier and divider are 1000/1000 in the test build)
+	if v, err := strconv.ParseInt(r, 10, 64); err == nil {
+		return uint64(v)
+	}
 	return 0
 }
 
@@ -336,6 +341,14 @@ func init() {
 				jobs = append(jobs, c08Job{Readings: rs, Fates: fs, Early: "none", Between: "none", Base: denseBase})
 			}
 		}
+		// boundary family: readings at the edges of what 32 signed bits (the history format) can hold and at the
+		// sentinel threshold, each lost once so that it has to be retransmitted from the history
+		for _, v := range []string{"-2147483648", "-2147483647", "2147483647", "2147483646", "-24", "24", "-25", "65535", "65536", "-65536"} {
+			for _, early := range []string{"none", "ok-drop"} {
+				jobs = append(jobs, c08Job{Readings: []string{v, "5000"}, Fates: []string{"drop", "deliver"}, Early: early, Between: "none"})
+				jobs = append(jobs, c08Job{Readings: []string{"5000", v}, Fates: []string{"deliver", "drop"}, Early: early, Between: "restart"})
+			}
+		}
 		// wide family: the server clock stays at 1000 while the device has readings over the whole acceptance
 		// range, the newest one AHEAD of the server clock; every subset of the older originals is lost
 		for _, newest := range []int{1432, 1100, 1000} {
@@ -354,7 +367,7 @@ func init() {
 			}
 		}
 		run.Assumption("loss, duplication and reordering are decided per datagram by the scripted network; readings fit 32 signed bits (the property's own restriction)")
-		rc := runJobCheck(run, "c08", jobs, "every combination of per-slot reading {none, +5000, -3000, sentinel 2 (, sentinel 3, 70000)} x fate of the original datagram {delivered, dropped, duplicated} x earlier sync round {none, dial fails, malformed reply, ok with all retransmissions dropped, ok delivered} x {nothing, week rotation, server restart} before a final fault-free round on a real client and a real server; afterwards every datagram ever on the wire is re-delivered in reverse order; plus a wide family (server clock fixed, readings at now-432, now-431, now-400, now-300, now-1 and a newest reading at now / now+100 / now+432, every subset of the older originals lost), plus dense runs of 18 consecutive slots from a bitfield byte boundary with none / each single / each adjacent pair of originals lost; distinct = (fate, early round, in-between event) classes; executions = evaluations")
+		rc := runJobCheck(run, "c08", jobs, "every combination of per-slot reading {none, +5000, -3000, sentinel 2 (, sentinel 3, 70000)} x fate of the original datagram {delivered, dropped, duplicated} x earlier sync round {none, dial fails, malformed reply, ok with all retransmissions dropped, ok delivered} x {nothing, week rotation, server restart} before a final fault-free round on a real client and a real server; afterwards every datagram ever on the wire is re-delivered in reverse order; plus a boundary family (readings -2^31, -2^31+1, 2^31-1, 2^31-2, +-24, -25, 65535, +-65536 lost and retransmitted), plus a wide family (server clock fixed, readings at now-432, now-431, now-400, now-300, now-1 and a newest reading at now / now+100 / now+432, every subset of the older originals lost), plus dense runs of 18 consecutive slots from a bitfield byte boundary with none / each single / each adjacent pair of originals lost; distinct = (fate, early round, in-between event) classes; executions = evaluations")
 		return rc
 	}
 }
